@@ -11,6 +11,11 @@
 #include "verif.h"
 #include "gf256.h"
 #include "erasure_code.h"
+#ifdef LEAF
+/* ec_base.c with gf_mul/gf_inv computed by the specification (lemmas of C12); the plan then passes
+ * units=[] -- see spec/ec_base_leaf.h.  Native replay uses the unmodified ec_base.c. */
+#include "ec_base_leaf.h"
+#endif
 
 /* ---- specification helpers (only spec_gf_mul; no library table) ---- */
 static uint8_t
@@ -29,9 +34,12 @@ static const uint8_t FS[2] = { 0, 1 };
 static const uint8_t FS[4] = { 0, 1, 214, 215 };
 #elif FIELD == 16
 static const uint8_t FS[16] = { 0, 1, 10, 11, 68, 69, 78, 79, 146, 147, 152, 153, 214, 215, 220, 221 };
+#elif FIELD == 256
+#define FS_ALL
 #else
-#error FIELD must be 2, 4 or 16
+#error FIELD must be 2, 4, 16 or 256
 #endif
+#ifndef FS_ALL
 static int
 in_fs(uint8_t v)
 {
@@ -41,6 +49,10 @@ in_fs(uint8_t v)
                         f = 1;
         return f;
 }
+#define ENTRY(x) FS[(x) % FIELD]
+#else
+#define ENTRY(x) (x)
+#endif
 #endif
 
 #if defined(H_INVERT)
@@ -106,7 +118,7 @@ harness(void)
 #elif defined(H_INVERT)
         uint8_t A[NN], in[NN], out[NN + 1];
         for (int t = 0; t < NN; t++)
-                A[t] = in[t] = FS[I.idx[t] % FIELD];
+                A[t] = in[t] = ENTRY(I.idx[t]);
 #ifdef SPLIT0
         VASSUME(I.idx[0] % FIELD == SPLIT0); /* case split on entry [0][0]; all FIELD cases are swept by the plan */
 #endif
